@@ -38,6 +38,7 @@ def run(repo, rep):
     rep.run_borrowed(c03, {"C03-f": "C12-d"}, repo, only_sites=("extract_npu_subgraphs", "live_range"))
     rep.run_borrowed(c11, {"C11-b": "C12-a"}, repo, only_sites=("data_type",))
     rule_round5(repo, rep)
+    rule_subgraph_refs(repo, rep)
     sw = repo.mod("stats_writer")
     got_get = any(isinstance(n_, ast.Call) and norm(n_.func) == "nng.memory_used.get" for n_ in ast.walk(sw.tree))
     got_arg = any(isinstance(n_, ast.Call) and any(norm(a_) == "nng.memory_used" for a_ in list(n_.args) + [k_.value for k_ in n_.keywords]) for n_ in ast.walk(sw.tree))
@@ -260,3 +261,25 @@ def rule_round5(repo, rep):
                           "floor division: the reported figure is up to 1023 bytes below the plan's extent (small networks report 0 KiB)")
     if n < 1:
         raise AnalysisError("stats_writer: KiB conversions of memory_used not found")
+
+
+def rule_subgraph_refs(repo, rep):
+    """(g) tensors of a subgraph get arena offsets only if the subgraph is reached from its calling operator: the reader attaches the
+    nng subgraphs (attrs['subgraph']) for every option member that is a subgraph index."""
+    rep.clause("C12-g", "every operator option that names another subgraph (<x>_subgraph_index) is resolved by the reader into attrs['subgraph'], so that live-range extraction visits the callee's tensors")
+    tm = repo.mod("tflite_mapping")
+    members = set()
+    for c in ast.walk(tm.tree):
+        if isinstance(c, ast.Call) and call_name(c) == "OptionsSerializer" and len(c.args) > 1 and isinstance(c.args[1], (ast.Tuple, ast.List)):
+            for e in c.args[1].elts:
+                if isinstance(e, ast.Constant) and isinstance(e.value, str) and e.value.endswith("_subgraph_index"):
+                    members.add(e.value)
+    if len(members) < 3:
+        raise AnalysisError("option members naming subgraphs not found")
+    po = repo.mod("tflite_reader").func("TFLiteSubgraph.parse_operator")
+    resolved = {x.slice.value for x in ast.walk(po) if isinstance(x, ast.Subscript) and str(norm(x.value)) == "op.attrs" and isinstance(x.slice, ast.Constant) and isinstance(x.slice.value, str)
+                and x.slice.value.endswith("_subgraph_index")}
+    for mname in sorted(members):
+        rep.check(mname in resolved, "C12-g", "ethosu/vela/tflite_reader.py:TFLiteSubgraph.parse_operator", f"option `{mname}` is resolved into the operator's attrs['subgraph']",
+                  f"`{mname}` is read from the file but never resolved: the subgraph it names is not visited by live-range extraction, its tensors keep address None and are written with offset 0 "
+                  "(all tensors of both IF branches overlap at [0, size)), or the compiler stops with a TypeError")
